@@ -111,6 +111,16 @@ of each other -/
 theorem rotate_eq_iff (a b : Str) : rotateSequence a = rotateSequence b ↔ IsRotation a b := by
   rw [booth_least, booth_least, Option.some.injEq, leastRotation_eq_iff]
 
+/-- the model of `RotateSequence` IS the arg-min spec (as functions) … -/
+theorem rotateSequence_eq_spec : rotateSequence = fun s => some (leastRotation s) :=
+  funext booth_least
+
+/-- … hence the model of `seqhash.Hash` (rotation by the Booth loop) equals `hashSpec` (rotation by
+the arg-min), which is what C04/C05 are stated over: nothing there is "modulo C12" any more. -/
+theorem hash_eq_hashSpec : Seqhash.hash = Seqhash.hashSpec := by
+  unfold Seqhash.hash Seqhash.hashSpec
+  rw [rotateSequence_eq_spec]
+
 /-- test: a periodic word -/
 example : rotateSequence "banana".toList = some "abanan".toList := by
   rw [booth_least]; decide
